@@ -618,6 +618,8 @@ class TextXMetaModel(DebugPrinter):
                     e.line = line
                 if e.filename is None:
                     e.filename = filename
+                if e.nchar is None:
+                    e.nchar = nchar
                 raise e
             else:
                 raise
